@@ -110,6 +110,9 @@ var c12Patches = []string{
 	// the second, described change matches the files only where its replacement cannot stand: it applies to none of
 	// them and its description is never printed
 	"# bump it\n@@\nvar x expression\n@@\n-bump(x)\n+bump(x + 1)\n\n# qualify helper\n@@\n@@\n-helperFn\n+util.HelperFn\n",
+	// the first change cannot be carried out on some files (an expression where only a name can stand), the second applies
+	// to all of them: a file for which the library reports an error is not written, printed or diffed by the CLI either
+	"# field access\n@@\nvar x expression\n@@\n-getField(x)\n+cfg.x\n\n# bump it\n@@\nvar x expression\n@@\n-bump(x)\n+bump(x + 1)\n",
 }
 
 func init() {
@@ -224,6 +227,11 @@ func runC12(ctx *core.Ctx, idx int) *core.Result {
 		if r.Intn(4) > 0 {
 			for i := 0; i < 1+r.Intn(3); i++ {
 				switch pi {
+				case 9:
+					plants = append(plants, gen.Plant{Kind: "expr", Text: "bump(" + g.Atom() + ")"})
+					if i == 0 {
+						plants = append(plants, gen.Plant{Kind: "expr", Text: []string{"getField(a + b)", "getField(name)", "getField(f())", "getField(fld)"}[f%4]})
+					}
 				case 0, 5, 8:
 					plants = append(plants, gen.Plant{Kind: "expr", Text: "bump(" + g.Atom() + ")"})
 				case 1:
@@ -519,6 +527,9 @@ func runC12(ctx *core.Ctx, idx int) *core.Result {
 			ar := core.ApplyAPI(pt, orig[n])
 			if ar.Panic != "" {
 				res.Violate("C12/engine-panic:"+core.PanicSignature(ar.Panic), ar.Panic, rep)
+			} else if ar.ApplyErr != nil && ar.ParseErr == nil && inplace[n] != orig[n] {
+				rep["inplace.go"] = inplace[n]
+				res.Violate("C12/written-although-the-library-reports-an-error", fmt.Sprintf("[%s] %s: the library returns no bytes (%v), the default mode rewrote the file", flagWord, n, ar.ApplyErr), rep)
 			} else if ar.OK() && string(ar.Out) != inplace[n] {
 				isGen := strings.Contains(orig[n], "generated")
 				if !(hasSkipGen && isGen) {
